@@ -80,8 +80,10 @@ def xargs_runs(ctx):
     td = tempfile.mkdtemp(prefix="c06-", dir=os.path.join(fw.BUILD, "tmp"))
     try:
         cases = [(8 << 20, 400000, [1], 0, []), (256 * 1024, 30000, [1, 2], 0, []), (1 << 20, 5000, [99, 100, 300], 50, [])]
+        # an environment that nearly fills the kernel's budget: the room left for arguments is a few hundred bytes to a few KiB
+        cases.append((512 * 1024, 300, [30], rng.choice([3460, 3500, 3540, 3560]), []))
         if ctx.thorough:
-            cases += [(64 << 20, 600000, [1], 0, []), (8 << 20, 100000, [1, 9, 40], 1000, []), (256 * 1024, 20000, [1], 0, ["-n", "5000"]),
+            cases += [(64 << 20, 600000, [1], 0, []), (512 * 1024, 500, [10, 40], 3550, []), (512 * 1024, 50, [200], 3480, ["-n", "3"]), (8 << 20, 100000, [1, 9, 40], 1000, []), (256 * 1024, 20000, [1], 0, ["-n", "5000"]),
                       (8 << 20, 3000, [4000, 100000], 0, []), (1 << 20, 50000, [3], 10, ["-s", "100000"])]
         else:
             cases.append((rng.choice([256 * 1024, 1 << 20]), rng.choice([1, 2, 1000, 20000]), [1, 50], rng.choice([0, 100]), rng.choice([[], ["-n", "700"]])))
